@@ -467,9 +467,11 @@ type refDec struct {
 	sem    string // first semantic rejection (bad bool, address length, range)
 	stop   bool
 	slack  map[string]bool
-	hazard bool // a pre-allocating decoder would be handed hazardCount (> remaining input)
+	hazard bool // an element count > hazardThreshold that the remaining input cannot satisfy
 	hzCnt  uint64
-	hzMode allocMode
+	hzMode allocMode // whether the decoder is known (schema) to pre-allocate from this count
+	hzOff  int       // position and width of that count in the input
+	hzW    int
 }
 
 func (p *refDec) fail() bool { return p.eof || p.stop }
@@ -543,6 +545,7 @@ func (p *refDec) varu() uint64 {
 
 func (p *refDec) count(k *kind) uint64 {
 	var n uint64
+	start := p.pos
 	if k.cnt == kU64 {
 		n = p.fixed(8)
 	} else {
@@ -551,9 +554,10 @@ func (p *refDec) count(k *kind) uint64 {
 	if p.fail() {
 		return 0
 	}
-	if k.alloc != allocNone && n > hazardThreshold && n > uint64(len(p.d)-p.pos) {
-		p.hazard, p.hzCnt, p.hzMode = true, n, k.alloc
-		p.eof = true // the count cannot be satisfied by the remaining input
+	if n > hazardThreshold && n > uint64(len(p.d)-p.pos) {
+		// every element takes at least one byte: the count cannot be satisfied by the remaining input
+		p.hazard, p.hzCnt, p.hzMode, p.hzOff, p.hzW = true, n, k.alloc, start, p.pos-start
+		p.eof = true
 		return 0
 	}
 	return n
@@ -691,12 +695,14 @@ type refResult struct {
 	hazard   bool
 	hzCnt    uint64
 	hzMode   allocMode
+	hzOff    int
+	hzW      int
 }
 
 func refParse(k *kind, d []byte) refResult {
 	p := &refDec{d: d}
 	v := p.dec(k)
-	r := refResult{hazard: p.hazard, hzCnt: p.hzCnt, hzMode: p.hzMode}
+	r := refResult{hazard: p.hazard, hzCnt: p.hzCnt, hzMode: p.hzMode, hzOff: p.hzOff, hzW: p.hzW}
 	switch {
 	case p.eof:
 		r.why = "input exhausted"
